@@ -17,7 +17,10 @@ Inductive c05_case :=
       (vals : list Q) (valid : list bool)
       (* observed: None = the call raised; Some (result nvdim, result array in C order,
          result vdims, result vdim_mapping) *)
-      (obs : option (nat * list Q * option (list string) * sdict)).
+      (obs : option (nat * list Q * option (list string) * sdict))
+(* complex-valued fields: the operators have real coefficients, so the real and the imaginary parts
+   are two instances of the same call *)
+| CBoth (re im : c05_case).
 
 Definition qmaxabs (l : list Q) : Q := fold_right (fun x m => Qmax (Qabs x) m) 0 l.
 Definition qminl (l : list Q) : Q := match l with [] => 1 | h :: t => fold_right Qmin h t end.
@@ -36,8 +39,9 @@ Definition optstrs_eqb (a b : option (list string)) : bool :=
   | _, _ => false
   end.
 
-Definition check_C05 (c : c05_case) : bool :=
+Fixpoint check_C05 (c : c05_case) : bool :=
   match c with
+  | CBoth re im => check_C05 re && check_C05 im
   | COp exact op sh cell per dims nv vdims vmap vals valid obs =>
       let nd := length sh in
       let fsh := sh ++ [nv] in
